@@ -62,3 +62,18 @@ pub proof fn lemma_pos_inj_all(f: Seq<BatchV>)
         if j < i { lemma_pos_mono(f, j, i); }
     }
 }
+
+// The real `into_messages_iter()` returns an iterator; its stand-in is the Vec of the messages it yields. The two std adapters a
+// prefix/suffix-taking edit would use are offered on the stand-in too (A-std: documented Iterator::take / Iterator::skip semantics),
+// so that such an edit is decided by the clauses instead of ending as "no method named take" (seed C18_2).
+pub trait IterAdapters<T>: Sized { fn take(self, n: usize) -> Vec<T>; fn skip(self, n: usize) -> Vec<T>; }
+impl<T> IterAdapters<T> for Vec<T> {
+    #[verifier::external_body]
+    fn take(self, n: usize) -> (r: Vec<T>)
+        ensures r@ == self@.take(if n <= self@.len() { n as int } else { self@.len() as int }),
+    { unimplemented!() }
+    #[verifier::external_body]
+    fn skip(self, n: usize) -> (r: Vec<T>)
+        ensures r@ == self@.skip(if n <= self@.len() { n as int } else { self@.len() as int }),
+    { unimplemented!() }
+}
